@@ -86,6 +86,19 @@ class InputsListed(AllGatesLoop):
             hints(sk2)
             ctx.check('lemma/set_inputs/every-input-gate-is-listed', z3.substitute(goal, (g, sk2)))
             ctx.assume(z3.ForAll([g], goal))
+            # two more ghost lemmas for loop 2 of set_inputs (each proved once, with instances of the loop facts as hints):
+            # every listed position holds an INPUT gate of the current circuit; no label is listed twice
+            q = z3.Int('q!il')
+            qs = ctx.fresh(I, 'qlem')
+            hints(lst.elem(qs))
+            goal2 = z3.Implies(z3.And(q >= 0, q < lst.n), z3.And(S.dom(lst.elem(q)), S.typ(lst.elem(q)) == GT['INPUT']))
+            ctx.check('lemma/set_inputs/listed-positions-hold-input-gates', z3.substitute(goal2, (q, qs)))
+            ctx.assume(z3.ForAll([q], goal2))
+            sk3 = ctx.fresh(LabelSort, 'glem')
+            hints(sk3)
+            goal3 = lst.count(g) <= 1
+            ctx.check('lemma/set_inputs/no-label-listed-twice', z3.substitute(goal3, (g, sk3)))
+            ctx.assume(z3.ForAll([g], goal3))
         return AllGatesLoop.inv(self, it, env, k)
 
 
